@@ -13,6 +13,16 @@ CLAIMS = {
          "TypeSum is an upper bound / commutative / idempotent, TypeIntersection is contained in both operands, NonNullable removes exactly NULL, and for every "
          "value within the C09 bounds the value matches Value.Type(). Two known findings (object/tuple deep merge, unnamed object fields) are excluded by narrow predicates and re-exhibited on every run.",
          "Bounds: nesting depth <= 1 per operand (values: depth 2), <= 1-2 fields/elements, field names from {a,b,c}.", "§5 C10"),
+ "C02": ("For every pair of input tables within the bounds (keys over all 2^64 Int values or NULL) and every receive order of the two inputs (each select with both inputs ready is a forked choice), "
+         "the consolidated output of the real StreamJoin / OuterJoin (left, right, full) / LookupJoin node equals the relational join (equality never matches NULL, unmatched outer rows padded once). "
+         "Bounded model checking of the real node code including its goroutines, channels and btrees.",
+         "Bounds: 0..1 (quick) / 0..2 (thorough) rows per side, 1-2 key columns; node level (planner key extraction belongs to C04).", "§5 C02"),
+ "C11": ("For every AND/OR/NOT tree within the bounds and every assignment of TRUE/FALSE/NULL to its leaves the real evaluators return the Kleene value (solver-checked per path).",
+         "Bounds: trees of depth <= 2 (quick) / 3 (thorough), 2..K operands per AND/OR.", "§5 C11"),
+ "C19": ("For two watermarked inputs within the bounds and EVERY interleaving of their records, watermarks and end-of-stream (all schedules observable by the join's select loop are enumerated by forking), "
+         "whenever the real StreamJoin / OuterJoin emits watermark W its consolidated output equals the join of the input records with event time <= W, emitted watermarks never decrease, and at end of stream "
+         "the output equals the join of the complete inputs. Schedule-dependent counterexamples are replayed natively through the `verif` hook that fixes the receive order.",
+         "Bounds: 2 (quick) / 3 (thorough) messages per input, keys over all Int values or NULL, event times 1..TCH s after the input's watermark.", "§5 C19"),
  "C09": ("For every pair/triple of octosql values within the bounds (all 2^64 bit patterns per Int/Float/Duration leaf, every byte value per string byte, "
          "containers to the stated depth) the solver shows Compare is reflexive, antisymmetric, transitive, Equal agrees with it and compare-equal values "
          "hash equally (Value.Hash, the hash step used by containers and HashManyValues). Bounded model checking of the real functions; right level because the "
@@ -54,7 +64,7 @@ manifest = {
    "guard": "verif",
    "enable": "go build tag `verif` (-tags=verif); harness code is injected with go build/test -overlay and golang.org/x/tools/go/packages Overlay, /repo is not modified",
    "baseline_off_cmd": f"cd /repo && {ENV} go test -vet=off -count=1 ./...",
-   "source_commits": [],
+   "source_commits": ["5801a85"],
    "add_only": True,
  },
  "engines": [{"name": "gosx", "path": "/verif/engine", "serves_properties": sorted(CLAIMS), "kind_free_text": "forking symbolic executor for Go SSA (own), SMT back ends z3 4.8.12 / cvc5 1.0, native replay through go test -overlay"}],
